@@ -10,6 +10,15 @@ CHECKS = {
  "C08": (MC, "vmc", "exhaustive pairs/triples over a value alphabet against a model of the documented order",
    "All ordered pairs of ~950 (quick) / ~3500 (thorough) values covering every number representation and boundary, text/byte strings and all depth-1 containers in every insertion order are compared with the six operators against an independent model order; for every equal pair 22 interchangeability laws and hash equality; all triples over a core for sort/min/max/unique/group_by/bsearch/array subtraction.",
    "trusted: model order transcribed from corelang.dj#ordering; pairs outside the property's domain are excluded by rule (NaN; |int| > 2^53 vs finite non-integer)", "DESIGN.md §2 C08"),
+ "C09": (MC, "vmc", "exhaustive operand pairs against an arbitrary-precision / IEEE model; metamorphic representation pairs",
+   "All ordered pairs over the C08 value set are evaluated with + - * / % and unary - and compared bit for bit with a BigInt/IEEE model written from the manual (integer exactly when both operands are integers and the operator is + - * %; null neutral; concatenation; right-biased union; recursive merge; repetition; array difference; split); 54 integer-consuming built-ins are run with n as machine integer and as n + 2^70 - 2^70 and must give identical traces.",
+   "trusted: the model transcribed from corelang.dj; repetition counts > 1000 and text/byte mixtures are excluded by rule", "DESIGN.md §2 C09"),
+ "C10": (MC, "vmc", "exhaustive containers x positions x programs against a list/char-sequence model; BFS over chained updates",
+   "Every container (arrays 0..4, all text/byte strings up to length 3/4 over 1-4 byte characters and a lone invalid byte, null, objects with arbitrary keys) x every pair of positions (integers, null, big-integer representations, wrongly typed) x 94 read and update programs is run on the reference evaluator and on the implementation, traces must be equal; plus a breadth-first search over sequences of update operations from every small container with canonical-state dedup, comparing model and implementation at every transition.",
+   "trusted: reference evaluator update rules transcribed from advanced.dj#pathless; objects compared up to key order after a deleting update", "DESIGN.md §2 C10"),
+ "C20": (MC, "vmc", "exhaustive sweep of calendar days and edge products against a days-from-civil model",
+   "Every day of the years -9998..9998 (thorough; quick: 1582..2400 plus marked days of every year) at two times of day through gmtime, mktime, todate, fromdate and five complete strftime/strptime formats against an independent proleptic Gregorian model; range limits, 2^31..2^64 neighbours, non-finite and non-numeric inputs must be errors; fractional epochs to the microsecond; the full product of edge field values of broken-down arrays; RFC 3339 texts with offsets and fractional digits.",
+   "trusted: the calendar model (era arithmetic); complete-format round trips demanded for 4-digit years; TZ=UTC", "DESIGN.md §2 C20"),
 }
 PENDING = {}
 def main():
